@@ -391,7 +391,7 @@ func c13xOracleFail(c c13xCase, obs c13xObs, base c13xObs) string {
 		}
 		return ""
 	}
-	if !strings.Contains(obs.Err, errHook.Error()) {
+	if !obs.ErrReturned {
 		return "F: hook error not returned: " + obs.Err
 	}
 	S, F := base.Events, obs.Events
@@ -445,7 +445,7 @@ func c13xJudge(c c13xCase) (c13xObs, string) {
 
 // ---- generator ----------------------------------------------------------------------------------
 
-var c13xCtxs = []string{"", "usertx", "skipdefault", "prepare"}
+var c13xCtxs = []string{"", "usertx", "skipdefault", "prepare", "nested", "prepare-session"}
 
 func c13xCore() []c13xCase {
 	var cs []c13xCase
@@ -592,6 +592,11 @@ func c13xPools(obs c13xObs) []string {
 	return out
 }
 
+var (
+	c13xKindOrder []string
+	c13xKindCtr   int
+)
+
 func c13xSuite(r *Result, rng *rand.Rand, tier string) {
 	maxN, extra, maxFaults := 5, 350, 5
 	if tier == "thorough" {
@@ -600,6 +605,9 @@ func c13xSuite(r *Result, rng *rand.Rand, tier string) {
 		maxN, extra, maxFaults = 7, 1500, 12
 	}
 	cases := c13xCore()
+	c13xKindOrder = append([]string{}, c13ErrKinds...)
+	rng.Shuffle(len(c13xKindOrder), func(i, j int) { c13xKindOrder[i], c13xKindOrder[j] = c13xKindOrder[j], c13xKindOrder[i] })
+	c13xKindCtr = rng.Intn(len(c13xKindOrder))
 	for i := 0; i < extra; i++ {
 		cases = append(cases, c13xRandom(rng, maxN))
 	}
@@ -718,6 +726,16 @@ func c13xSuite(r *Result, rng *rand.Rand, tier string) {
 		for _, j := range points {
 			fc := c
 			fc.FailAt = base.Events[j].short()
+			// the error VALUE rotates through the whole alphabet (c13_errvals.go); hooks of queries have no transaction
+			// of their own, so their errors come without writes
+			for tries := 0; tries < len(c13ErrKinds); tries++ {
+				c13xKindCtr++
+				fc.FailErr = c13xKindOrder[c13xKindCtr%len(c13xKindOrder)]
+				if !(base.Events[j].Kind == "AfterFind" && c13KindWrites(fc.FailErr)) {
+					break
+				}
+			}
+			r.H("x.failerr", strings.SplitN(fc.FailErr, ":", 2)[0])
 			o := c13xRun(fc)
 			v := c13xOracleFail(fc, o, base)
 			r.Case("compound", canon(fc), true)
